@@ -13,7 +13,7 @@ use std::sync::Arc;
 use std::time::Duration;
 
 use serde::{Deserialize, Serialize};
-use shuttle::scheduler::{PctScheduler, RandomScheduler, ReplayScheduler};
+use shuttle::scheduler::{PctScheduler, RandomScheduler, ReplayScheduler, UrwRandomScheduler};
 use shuttle_engine::runtime::execution::CurrentSchedule;
 use shuttle_engine::scheduler::serialization::serialize_schedule;
 
@@ -62,6 +62,8 @@ pub struct Workload {
 pub enum Sched {
     Random,
     Pct { depth: usize },
+    /// uniform random walk over interleavings (Zhao et al., ASPLOS 2025)
+    Urw,
 }
 
 #[derive(Clone, Debug, Serialize, Deserialize)]
@@ -544,6 +546,9 @@ pub fn explore(w: &Workload, sched: Sched, sched_seed: u64, iterations: usize) -
         Sched::Pct { depth } => {
             shuttle::Runner::new(PctScheduler::new_from_seed(sched_seed, depth, iterations), config()).run(f);
         }
+        Sched::Urw => {
+            shuttle::Runner::new(UrwRandomScheduler::new_from_seed(sched_seed, iterations), config()).run(f);
+        }
     }));
     let (mut failure, counters, executions) = take_trace();
     if r.is_err() && failure.is_none() {
@@ -924,6 +929,9 @@ pub fn lockstep_explore(ls: &Lockstep, sched: Sched, sched_seed: u64, iterations
         }
         Sched::Pct { depth } => {
             shuttle::Runner::new(PctScheduler::new_from_seed(sched_seed, depth, iterations), config()).run(f);
+        }
+        Sched::Urw => {
+            shuttle::Runner::new(UrwRandomScheduler::new_from_seed(sched_seed, iterations), config()).run(f);
         }
     }));
     let (mut failure, counters, executions) = take_trace();
